@@ -75,7 +75,7 @@ type AbsTensor struct {
 
 func (t *AbsTensor) UnmarshalJSON(b []byte) error {
 	s := strings.TrimSpace(string(b))
-	if s == `"nil"` {
+	if s == `"nil"` || strings.HasPrefix(s, `{"nil"`) {
 		t.Nil = true
 		return nil
 	}
